@@ -14,6 +14,7 @@ import time
 import vlib
 
 PID = "C12"
+PKG = "yv-c12"
 
 CONFIGS = {
     # name: (cfg, n, pids, flags)
@@ -54,10 +55,10 @@ def run(tier):
         for a, c in r.coverage.items():
             coverage_actions[a] = coverage_actions.get(a, 0) + c
         trace = os.path.join(wd, cfg + ".trace.ndjson")
-        args = ["joblist-replay", "--n", str(n), "--pids", str(k), "--in", gen, "--out", trace]
+        args = ["replay", "--n", str(n), "--pids", str(k), "--in", gen, "--out", trace]
         if flags:
             args.append("--flags")
-        vlib.run_harness(args)
+        vlib.run_harness(PKG, args)
         info = _check_records(rep, trace, f"replay of {cfg}", samples)
         validated += info["events"]
         vlib.log(f"[p2] {cfg}: {info['events']} (state, op) records validated against JobListAbs in {info['wall']:.1f}s")
@@ -71,7 +72,7 @@ def run(tier):
     # P3: random long histories beyond the exhaustive bounds
     trace = os.path.join(wd, "random.trace.ndjson")
     runs, steps = (20, 1500) if tier == "quick" else (200, 3000)
-    vlib.run_harness(["joblist-random", "--n", "8", "--pids", "12", "--steps", str(steps), "--runs", str(runs),
+    vlib.run_harness(PKG, ["random", "--n", "8", "--pids", "12", "--steps", str(steps), "--runs", str(runs),
                       "--out", trace])
     info = _check_records(rep, trace, "random history", samples)
     vlib.log(f"[p3] random histories: {info['events']} steps validated in {info['wall']:.1f}s")
@@ -110,7 +111,7 @@ def replay(path):
     src = os.path.join(wd, "in.ndjson")
     with open(src, "w") as f:
         f.write(json.dumps(rec) + "\n")
-    vlib.run_harness(["joblist-redo", "--in", src, "--out", t])
+    vlib.run_harness(PKG, ["redo", "--in", src, "--out", t])
     ok, info = vlib.validate_trace("Trace_JobList", t)
     print("accepted" if ok else f"rejected: {info}")
     if not ok:
